@@ -1,7 +1,7 @@
 """C16 — disks, spheres, segments, rays: containment, distance and hit queries are exact (DESIGN §6 C16)."""
 import core
 
-OPS_Z = ["disk_contains", "disk_collides", "disk_box", "disk_diameter", "disk_measure"]
+OPS_Z = ["disk_contains", "disk_collides", "disk_box", "disk_diameter", "disk_measure", "seg_distance_f"]
 OPS_Q = ["seg_project", "seg_distance", "box_distance", "ray_tri", "disk_cvec"]
 
 
@@ -24,7 +24,9 @@ def corrupt_q(rs):
 def run(ctx):
     ctx.rule = ("disks / spheres on integer centres, radii and boundary-biased points (exactly on the circle through "
                 "Pythagorean offsets) through f64/f32: containment and collision against the squared-distance comparison "
-                "incl. exact tangency, bounding rectangle/box, diameter, measures against pi to 3e-3; segment projection "
+                "incl. exact tangency and negative radii (a negative bound is never reached), f32/f64 segments with "
+                "non-dyadic coordinates: distance_to_point = distance to projected_point within 2^-13, also for query points on "
+                "the segment, bounding rectangle/box, diameter, measures against pi to 3e-3; segment projection "
                 "against the clamped parametric minimiser and 17 sampled points of the segment, distances as witnessed "
                 "square roots, ray/triangle against Cramer's rule in exact rationals on a small integer grid aimed at "
                 "interior points, edges, vertices, parallel and coplanar directions (hits behind the origin included), "
